@@ -105,6 +105,18 @@ def as_changes(rng, old, new, incremental):
     for tag, i1, i2, j1, j2 in reversed(sm.get_opcodes()):
         if tag == "equal":
             continue
+        if tag == "replace" and i2 - i1 == j2 - j1 and rng.random() < 0.6:
+            # keystroke-like delivery: each changed line is edited in place (range inside the line, no line break in the text)
+            for k in reversed(range(i2 - i1)):
+                x, y = a[i1 + k], b[j1 + k]
+                pre = 0
+                while pre < min(len(x), len(y)) and x[pre] == y[pre]:
+                    pre += 1
+                suf = 0
+                while suf < min(len(x), len(y)) - pre and x[len(x) - 1 - suf] == y[len(y) - 1 - suf]:
+                    suf += 1
+                notifs.append([{"range": {"start": {"line": i1 + k, "character": pre}, "end": {"line": i1 + k, "character": len(x) - suf}}, "text": y[pre:len(y) - suf]}])
+            continue
         # replace lines i1:i2 by b[j1:j2]
         if i2 < len(a):
             rg = {"start": {"line": i1, "character": 0}, "end": {"line": i2, "character": 0}}
@@ -287,8 +299,13 @@ def run_case(ctx, i, rng):
         elif r < 0.8 and buf:
             f = rng.choice(sorted(buf))
             if buf[f] != disk[f]:
-                events.append(("save", f, buf[f]))
-                disk[f] = buf[f]
+                if rng.random() < 0.5:
+                    events.append(("save", f, buf[f]))
+                    disk[f] = buf[f]
+                else:
+                    # closed without saving: the editor discards the buffer, the file on disk is the truth again
+                    kinds.append("close-discard")
+                    res.kind("event:close-discard")
             events.append(("close", f))
             del buf[f]
         elif r < 0.88:
